@@ -17,7 +17,9 @@
 //        mctsv <seed> <S> <Amax> <O> <K> <disc> <term:S> <table…> <acnt:S> <iters> <expl> <nops> ops…
 //          MCTS on a model with a VARIABLE action space: getA(s) = acnt[s] (1..Amax), no getA()
 //        rpomcp <entropy:0|1> <seed> <S> <A> <O> <K> <disc> <term:S> <table…> <beliefSize> <iters> <expl> <k> <nops> ops…
-//          rPOMCP<Model, UseEntropy>, ops as for pomcp
+//          rPOMCP<Model, UseEntropy>, ops as for pomcp; per op:  OP <ret> <nTerm> LOG … SB <n> (s cnt)* TREE <rdump>
+//          rdump(node) = <N> <V> <actionsV> <bestAction> <maxS_> <knowledgeMeasure_> <ntrack> (s cnt)* sorted by s
+//                        <nacts> (aN aV <nkids> (key rdump(kid))*)*
 // output per op:  OP <returned action> <nIsTerminalCalls> LOG <n> (rootN s a s1 o r)*n TREE <dump>
 //   dump(node) = <N> <nbel> bel… <nacts> (aN aV <nkids> (key dump(kid))*)*   kids sorted by key
 #include <vector>
@@ -28,7 +30,14 @@
 #include <AIToolbox/Seeder.hpp>
 #include <AIToolbox/MDP/Algorithms/MCTS.hpp>
 #include <AIToolbox/POMDP/Algorithms/POMCP.hpp>
+// rPOMCP keeps its tracking / sampling beliefs protected / private; they are part of what the
+// property speaks about (particle beliefs), so this translation unit (only) opens them up.  All
+// standard / Eigen headers are already included above through MCTS.hpp and POMCP.hpp.
+#define private public
+#define protected public
 #include <AIToolbox/POMDP/Algorithms/rPOMCP.hpp>
+#undef private
+#undef protected
 #include "vio.hpp"
 
 // NOTE: POMCP.hpp calls `rollout(model_, …)` unqualified from namespace AIToolbox::POMDP while the
@@ -175,6 +184,26 @@ void runPOMCP(vio::Cursor & c, vio::Out & o) {
 }
 
 template <bool UseEntropy>
+void dumpRNode(vio::Out & o, const AIToolbox::POMDP::BeliefNode<UseEntropy> & n) {
+    o << n.N << n.V << n.actionsV << n.bestAction;
+    if constexpr (UseEntropy) o << (size_t) 0; else o << n.maxS_;
+    o << n.knowledgeMeasure_;
+    std::vector<std::pair<size_t, unsigned>> tb;
+    for (const auto & kv : n.trackBelief_) tb.emplace_back(kv.first, kv.second.N);
+    std::sort(tb.begin(), tb.end());
+    o << (size_t) tb.size();
+    for (const auto & p : tb) o << p.first << p.second;
+    o << (size_t) n.children.size();
+    for (const auto & an : n.children) {
+        o << an.N << an.V << (size_t) an.children.size();
+        std::vector<size_t> keys;
+        for (const auto & kv : an.children) keys.push_back(kv.first);
+        std::sort(keys.begin(), keys.end());
+        for (size_t k : keys) { o << k; dumpRNode<UseEntropy>(o, an.children.at(k)); }
+    }
+}
+
+template <bool UseEntropy>
 void runRPOMCP(vio::Cursor & c, vio::Out & o) {
     VerifScriptModel m; readModel(c, m);
     const size_t beliefSize = c.nextSize();
@@ -199,8 +228,10 @@ void runRPOMCP(vio::Cursor & c, vio::Out & o) {
         else throw std::logic_error("unknown op " + op);
         o << "OP" << ret << m.termCalls;
         dumpLog(o, m);
+        o << "SB" << (size_t) planner.getGraph().sampleBelief_.size();
+        for (const auto & p : planner.getGraph().sampleBelief_) o << p.first << p.second;
         o << "TREE";
-        dumpNode(o, static_cast<const AIToolbox::POMDP::BeliefNode<UseEntropy> &>(planner.getGraph()), nullptr);
+        dumpRNode<UseEntropy>(o, planner.getGraph());
     }
 }
 
